@@ -1,0 +1,93 @@
+//go:build verif
+
+// Contracts for the verification machinery in /verif (comment-only; no code).
+// p2pkeswarm glue: every channel the swarm creates consults the whitelist before it accepts a
+// key; a delivered message is attributed to the fingerprint of the key its channel authenticated;
+// a Tell goes out only on a channel whose authenticated key has the requested fingerprint.
+
+package p2pkeswarm
+
+// AcceptKey of channels created for an outbound Tell
+//@ func (*Swarm).getFullAddr$1$1
+//@   requires s != nil
+//@   ghostvar wl = false
+//@   ghostvar idok = false
+//@   ensures [whitelist] ret ==> ghost(wl)
+//@   ensures [identity] ret ==> ghost(idok)
+//@   after call fingerprinter:
+//@     set idok = res0 == addr.ID
+//@   after call whitelist:
+//@     set wl = res0
+//@   before call whitelist:
+//@     assert arg0.Addr == addr.Addr
+//@   fnspec fingerprinter:
+//@     pure
+//@   fnspec whitelist:
+//@     pure
+
+// AcceptKey of channels created for an inbound message
+//@ func (*Swarm).handleMessage$1$1
+//@   requires s != nil
+//@   ghostvar wl = false
+//@   ensures [whitelist] ret ==> ghost(wl)
+//@   after call whitelist:
+//@     set wl = res0
+//@   before call whitelist:
+//@     assert arg0.Addr == msg.Src
+//@   fnspec fingerprinter:
+//@     pure
+//@   fnspec whitelist:
+//@     pure
+
+// a delivered message carries the fingerprint of the key its channel authenticated, the transport
+// address it came from, and exactly the plaintext the channel returned
+//@ type Swarm
+//@   invariant store != nil && inv(self.hub)
+
+//@ func (*Swarm).handleMessage
+//@   noframe
+//@   requires s != nil && inv(s)
+//@   ghostvar fromchan = false
+//@   after call (*Channel).RemoteKey:
+//@     set fromchan = true
+//@   before call fingerprinter:
+//@     assert [authkey] ghost(fromchan) && arg0.Algorithm == remoteKey.Algorithm && arg0.Data == remoteKey.Data
+//@   before call (*TellHub).Deliver:
+//@     assert [attribution] arg2.Src.ID == srcID && arg2.Src.Addr == msg.Src && arg2.Payload == out && arg2.Dst.ID == s.localID
+//@   fnspec fingerprinter:
+//@     pure
+//@   fnspec fn:
+//@     pure
+
+// a Tell / LookupPublicKey goes to a channel only if the key it authenticated has the requested identity
+//@ func (*Swarm).getFullAddr
+//@   noframe
+//@   requires s != nil && inv(s)
+//@   ghostvar idok = false
+//@   ensures [identity] ret1 == nil ==> ret0 != nil && ghost(idok)
+//@   after call fingerprinter:
+//@     set idok = res0 == addr.ID
+//@   fnspec fingerprinter:
+//@     pure
+//@   fnspec fn:
+//@     pure
+//@   loop 0:
+//@     invariant s != nil && inv(s) && !ghost(idok)
+
+// the channel table (a map under a mutex) and address keys: not modelled
+//@ func (*store).getOrCreate
+//@   trusted
+//@   assumeframe
+//@   requires s != nil
+//@   ensures ret != nil && ret.Channel != nil
+//@
+//@ func (*store).deleteMatching
+//@   trusted
+//@   assumeframe
+//@   requires s != nil
+//@   ensures true
+//@
+//@ func (*Swarm).keyForAddr
+//@   trusted
+//@   pure
+//@   ensures true
